@@ -62,7 +62,7 @@ CK_OPT = {'md5': 'md5', 'ts': 'timestamp'}
 CK_Z = {'MD5Checker': 1, 'TimestampChecker': 2, None: 0}
 BACKEND_OPT = {'json': 'json', 'dbm': 'dbm', 'sqlite': 'sqlite3'}
 BACKEND_COQ = {'json': 'BJson', 'dbm': 'BDbm', 'sqlite': 'BSqlite'}
-STATUS_Z = {'up-to-date': 0, 'run': 1, 'error': 2}
+STATUS_Z = {'up-to-date': 0, 'run': 1, 'error': 2, 'ignored': 3}
 LETTER_Z = {'I': 1, 'U': 2, 'R': 3, 'E': 4}
 
 PRE = ('From DoitV Require Import Base Status History Introspect.\nOpen Scope Z_scope.\n'
@@ -490,8 +490,11 @@ def coq_rank(tasks):
 class State:
     """what the model is given: everything read back from the world just before a command"""
     def __init__(self, w, recs, tasks):
+        cf = saved_file_dep(w, recs)
+        cf_coq = '(fun c : name => match c with %s | _ => [] end)' % ' '.join('| %d%%N => %s' % (NAME_ID[n], nlist(fs_)) for n, fs_ in sorted(cf.items()))
         self.defs = ('Definition fs_# : fsys := %s.\nDefinition db_# : db := %s.\nDefinition tb_# : table := %s.\nDefinition lt_# : name -> name -> bool := %s.\n'
-                     % (coq_fs(w), coq_db(w, recs), coq_table(w, tasks), coq_rank(tasks)))
+                     'Definition cf_# : name -> list file := %s.\n'
+                     % (coq_fs(w), coq_db(w, recs), coq_table(w, tasks), coq_rank(tasks), cf_coq))
         self.ck = 'MD5' if w.ck == 'md5' else 'TS'
         self.backend = BACKEND_COQ[w.backend]
 
@@ -501,6 +504,46 @@ def b2c(b):
 
 
 # ------------------------------------------------------------------ command variants and parsers
+def canon_runs(out, start, is_item):
+    """sort every maximal run of [tag, file] pairs (set iteration order is not compared); `out` is a flat int list
+    that is walked token-wise by `is_item(out, i) -> length of the token at i, is it an item`"""
+    res, i, run = out[:start], start, []
+    while i < len(out):
+        n, item = is_item(out, i)
+        if item:
+            run.append(out[i:i + n])
+        else:
+            res += [x for tok in sorted(run) for x in tok]
+            run = []
+            res += out[i:i + n]
+        i += n
+    res += [x for tok in sorted(run) for x in tok]
+    return res
+
+
+def list_tok(out, i):
+    return {1: (3, False), 2: (2, True), 3: (1, False)}.get(out[i], (1, False))
+
+
+def info_tok(out, i):
+    t = out[i]
+    if 30 <= t <= 34:
+        return 2, True
+    if t == 13:
+        return 2, False
+    return 1, False
+
+
+def saved_file_dep(w, recs):
+    """name -> file numbers under 'file_dep' in the values the task saved (the model's oracle cf)"""
+    res = {}
+    for n, r in recs.items():
+        fd = (r.get('_values_:') or {}).get('file_dep')
+        if fd:
+            res[n] = [w.fileno(p) for p in fd]
+    return res
+
+
 def parse_list_args(args):
     o = dict(all=False, status=False, private=False, deps=False, sort_name=True, pos=[])
     i = 1
@@ -547,7 +590,7 @@ def parse_list_output(w, o, rc, txt):
             out += [1, NAME_ID.get(line[2:].split()[0], 77), LETTER_Z.get(line[0], 76)]
         else:
             out += [1, NAME_ID.get(line.split()[0], 77), 0]
-    return out, True
+    return canon_runs(out, 1, list_tok), True
 
 
 HEADERS = [('The following targets do not exist:', 0), ('The following file dependencies have changed:', 1),
@@ -600,17 +643,17 @@ def parse_info_output(w, rc, txt):
                 i += 1
             break
         i += 1
-    return [0, status, rc] + out, True, parsed
+    return [0, status, rc] + canon_runs(out, 0, info_tok), True, parsed
 
 
 def list_model(st, idx, o):
-    return ('enc_lres %s TASKS FILES db_# (list_cmd md5o current lt_# tb_# (LO %s %s %s %s %s %s) %s fs_# db_#)' % (
+    return ('enc_lres %s TASKS FILES db_# (list_cmd md5o current lt_# icurrent cf_# tb_# (LO %s %s %s %s %s %s) %s fs_# db_#)' % (
         st.backend, b2c(o['all']), b2c(o['status']), b2c(o['private']), b2c(o['deps']), b2c(o['sort_name']),
         nlist(NAME_ID.get(x, 20) for x in o['pos']), st.ck)).replace('#', str(idx))
 
 
 def info_model(st, idx, pos, hide):
-    return ('enc_ires %s TASKS FILES db_# (info_cmd md5o current tb_# %s %s %s fs_# db_#)' % (
+    return ('enc_ires %s TASKS FILES db_# (info_cmd md5o current icurrent cf_# tb_# %s %s %s fs_# db_#)' % (
         st.backend, nlist(NAME_ID.get(x, 20) for x in pos), b2c(hide), st.ck)).replace('#', str(idx))
 
 
@@ -768,33 +811,38 @@ class Runner:
             self.readonly(args)
         if self.shape.get('dangling'):
             return                    # `run` rejects this dodo file (dangling task_dep): nothing to compare with
-        # letters, verdicts, then the run
-        rc, txt, lst, _, tasks = self.readonly(['list', '-s', '--all', '-p'])
+        # verdicts and reasons of `info` for every task, then the letters, then -- immediately -- the run
+        tasks = w.loaded()
+        infos, truths, info_recs = {}, {}, {}
+        names = [t.name for t in tasks]
+        bytask = {t.name: t for t in tasks}
+        for n in names:
+            rc, txt, parsed, recs0, _ = self.readonly(['info', n])
+            infos[n] = parsed
+            info_recs[n] = recs0.get(n)
+            t = bytask[n]
+            # what the dispatcher merges into the task before get_status: the file_dep its (up-to-date) calc_dep tasks saved
+            cf = saved_file_dep(w, recs0)
+            merged = [w.fileno(p) for p in t.file_dep]
+            for c_ in t.calc_dep:
+                merged += [f for f in cf.get(c_, []) if f not in merged]
+            truths[n] = true_reasons(w, t, recs0.get(n), merged)     # the facts at the moment `info` was asked
+        rc, txt, lst, _, _ = self.readonly(['list', '-s', '--all', '-p'])
         letters = {}
         if lst and lst[0] == 0:
             body = lst[1:lst.index(-7)]
             i = 0
             while i < len(body):
                 if body[i] == 1:
-                    letters[ID_NAME.get(body[i + 1])] = body[i + 2]; i += 3
+                    letters[ID_NAME.get(body[i + 1])] = body[i + 2]
+                    i += 3
                 elif body[i] == 2:
                     i += 2
                 else:
                     i += 1
-        infos, truths = {}, {}
-        names = [t.name for t in tasks]
-        bytask = {t.name: t for t in tasks}
-        # what the dispatcher merges into D before get_status: the calc task's saved / returned file_dep
-        calc_fd = [3]
-        for n in names:
-            rc, txt, parsed, recs0, _ = self.readonly(['info', n])
-            infos[n] = parsed
-            t = bytask[n]
-            merged = [w.fileno(p) for p in t.file_dep] + ([f for f in calc_fd if w.path(f) not in t.file_dep] if t.calc_dep else [])
-            truths[n] = true_reasons(w, t, recs0.get(n), merged)     # the facts at the moment `info` was asked
         # state for the model's run_decision
-        recs0 = w.db_records()
-        st = State(w, recs0, tasks)
+        recs_run = w.db_records()
+        st = State(w, recs_run, tasks)
         del RAN[:]
         rc, txt, log = w.doit(['run', '--continue'])
         self.ncmd += 1
@@ -815,6 +863,28 @@ class Runner:
                 outcome[n] = 5            # UnmetDependency: a dependency failed
             else:
                 outcome[n] = 6            # not reached
+        # the reasons `info` printed against the facts (no use of the run)
+        for n in names:
+            inf, truth = infos.get(n), truths[n]
+            has_calc = bool(bytask[n].calc_dep)
+            if inf is None or inf['status'] in (None, 'ignored') or truth is None:
+                continue
+            if inf['status'] != 'up-to-date':
+                got = dict(nodeps=inf['nodeps'], utd_false=inf['utd_false'], checker=inf['checker'],
+                           sets={k: sorted(v_) for k, v_ in inf['sets'].items()})
+                want = dict(truth, sets={k: sorted(v_) for k, v_ in truth['sets'].items()})
+                if got != want:
+                    self.violation('`info %s` prints reasons that are not the true ones: printed %s, true %s' % (n, got, want),
+                                   'list-info-calc-dep-not-merged' if has_calc else 'info-false-reasons', dict(task=n))
+                else:
+                    out.count('info-reasons-verified')
+            elif truth['nodeps'] or truth['utd_false'] or truth['checker'] or any(truth['sets'].values()):
+                self.violation('`info %s` says up-to-date although %s' % (n, truth),
+                               'list-info-calc-dep-not-merged' if has_calc else 'info-false-reasons', dict(task=n))
+            else:
+                out.count('info-uptodate-verified')
+        # letters and verdicts against what the run did
+        did = ['skipped it (ignored)', 'skipped it (up-to-date)', 'executed it', 'reported a dependency error']
         comp = []
         for n in names:
             t = bytask[n]
@@ -827,36 +897,30 @@ class Runner:
             has_calc = bool(t.calc_dep)
             if letters.get(n) != outcome[n]:
                 self.violation('`list --status` shows %s for task %s, the immediately following run %s' % (
-                    'IURE?'[(letters.get(n) or 5) - 1], n, ['skipped it (ignored)', 'skipped it (up-to-date)', 'executed it', 'reported a dependency error'][outcome[n] - 1]),
+                    'IURE?'[(letters.get(n) or 5) - 1], n, did[outcome[n] - 1]),
                     'list-info-calc-dep-not-merged' if has_calc else 'list-status-differs-from-run', dict(task=n))
             inf = infos.get(n)
-            if inf is not None and inf['status'] is not None and outcome[n] != 1:
-                iz = {'up-to-date': 2, 'run': 3, 'error': 4}.get(inf['status'], 0)
-                if iz != outcome[n]:
-                    missing = bool(inf['sets'][2])
-                    self.violation('`info %s` says status %s, the immediately following run %s' % (
-                        n, inf['status'], ['', 'skipped it (up-to-date)', 'executed it', 'reported a dependency error'][outcome[n] - 1]),
-                        'list-info-calc-dep-not-merged' if has_calc else
-                        ('info-status-differs-missing-file-dep' if missing else 'info-status-differs-from-run'), dict(task=n))
-                truth = truths[n]
-                if truth is not None and inf['status'] != 'up-to-date':
-                    got = dict(nodeps=inf['nodeps'], utd_false=inf['utd_false'], checker=inf['checker'],
-                               sets={k: sorted(v) for k, v in inf['sets'].items()})
-                    want = dict(truth, sets={k: sorted(v) for k, v in truth['sets'].items()})
-                    if got != want:
-                        self.violation('`info %s` prints reasons that are not the true ones: printed %s, true %s' % (n, got, want),
-                                       'list-info-calc-dep-not-merged' if has_calc else 'info-false-reasons', dict(task=n))
-                    else:
-                        out.count('info-reasons-verified')
-                elif truth is not None:
-                    if truth['nodeps'] or truth['utd_false'] or truth['checker'] or any(truth['sets'].values()):
-                        self.violation('`info %s` says up-to-date although %s' % (n, truth),
-                                       'list-info-calc-dep-not-merged' if has_calc else 'info-false-reasons', dict(task=n))
+            if inf is None or inf['status'] is None:
+                continue
+            if info_recs[n] != recs_run.get(n):
+                # a command in between dropped this task's record (the documented invalidation): not the same moment
+                out.count('run-compare:info-skipped-record-invalidated-in-between')
+                continue
+            iz = {'ignored': 1, 'up-to-date': 2, 'run': 3, 'error': 4}.get(inf['status'], 0)
+            if iz != outcome[n]:
+                if outcome[n] == 1:
+                    shape = 'info-does-not-show-ignored'
+                elif inf['sets'][2]:
+                    shape = 'info-status-differs-missing-file-dep'
+                else:
+                    shape = 'list-info-calc-dep-not-merged' if has_calc else 'info-status-differs-from-run'
+                self.violation('`info %s` says status %s, the immediately following run %s' % (n, inf['status'], did[outcome[n] - 1]),
+                               shape, dict(task=n))
         if comp:
             idx = next_idx()
             expr = '[' + '; '.join(
                 'decision_z (match lookup tb_# %d%%N with Some t => run_decision md5o current %s fs_# db_# %d%%N '
-                '(run_def (fun _ => %s) t) | None => DCrash end)' % (NAME_ID[n], st.ck, NAME_ID[n], nlist(calc_fd)) for n in comp) + ']'
+                '(run_def tb_# (saved_fd cf_# db_#) t) | None => DCrash end)' % (NAME_ID[n], st.ck, NAME_ID[n]) for n in comp) + ']'
             self.cases.append(dict(defs=st.defs.replace('#', str(idx)), model=expr.replace('#', str(idx)),
                                    expected=[outcome[n] for n in comp], desc=self.case_desc(dict(cmd='run', tasks=comp))))
         return letters, outcome
@@ -975,7 +1039,7 @@ def scripted():
     W = [('Write', f, f) for f in range(5)]
     hs = []
     full = dict(group=True, private=True, calc=True, d_own=[])
-    # calc_dep: after two runs D is up-to-date for `run`; list / info look at the un-merged task
+    # calc_dep: after two runs D is up-to-date for `run`; list / info must merge what C saved (repaired a4fdc5e)
     hs.append((full, W + [('SetDef', 0, D([0])), ('SetDef', 1, D([1], True)), ('SetDef', 2, D([], utd=[T])), ('Run', [], []), ('Run', [], []), ('Probe', True)]))
     hs.append((dict(calc=True, d_own=[0]), W + [('SetDef', 0, D([0])), ('Run', [], []), ('Probe', False), ('Write', 3, 1), ('Probe', False)]))
     # a missing file_dep together with a changed one / with an uptodate item that is false / with a missing target
@@ -1008,6 +1072,10 @@ RULE = ('scripted histories (calc_dep, missing file_dep with changed dep / false
 def run(ctx):
     out = Outcome()
     out.rule = RULE
+    # the model is evaluated from its .vo: bring it up to date with what it imports before anything else
+    ok, log = common.coq_build(['Model/Introspect.vo'])
+    if not ok:
+        raise RuntimeError('cannot build Model/Introspect.vo: ' + log[-1500:])
     rng = ctx.rng
     hs = [('scripted', s, h) for s, h in scripted()]
     for i in range(ctx.n(7, 80)):
